@@ -93,10 +93,10 @@ def computeWeightsMod (g : List Rat) (a b : Rat) : Except GQErr (List Rat) :=
   | [_, _, _] => if sumAssertOk a b [0, b - a, 0] then .ok [0, b - a, 0] else .error .assert
   | [_, x1, x2, _] =>
       if x2 - x1 = 0 then .error .zerodiv else
-      if sumAssertOk a b [0, -1 * ((b * b / 2 - b * x1 - a * a / 2 + a * x1) / (x2 - x1)) + b - a,
-                          (b * b / 2 - b * x1 - a * a / 2 + a * x1) / (x2 - x1), 0]
-      then .ok [0, -1 * ((b * b / 2 - b * x1 - a * a / 2 + a * x1) / (x2 - x1)) + b - a,
-                (b * b / 2 - b * x1 - a * a / 2 + a * x1) / (x2 - x1), 0]
+      if sumAssertOk a b [0, -1 * ((b - a) * ((a + b) / 2 - x1) / (x2 - x1)) + b - a,
+                          (b - a) * ((a + b) / 2 - x1) / (x2 - x1), 0]
+      then .ok [0, -1 * ((b - a) * ((a + b) / 2 - x1) / (x2 - x1)) + b - a,
+                (b - a) * ((a + b) / 2 - x1) / (x2 - x1), 0]
       else .error .assert
   | _ :: x1 :: x2 :: _ =>
       -- denominators of the loop: `grid[2]-grid[1]` and `grid[n-2]-grid[n-3]`
